@@ -24,7 +24,7 @@ COMMON_ASSUME = [
 
 PROPS = {
     "C01": {
-        "arms": [arm("solve", 1, weight=5), arm("solve", 0, weight=2), arm("hist", 1, weight=2), arm("config", 1, "asan0", weight=1)],
+        "arms": [arm("solve", 1, weight=5), arm("solve", 0, weight=2), arm("hist", 1, weight=2), arm("partial", 0, weight=1), arm("resolve", 0, weight=1), arm("config", 1, "asan0", weight=1)],
         "rule": "one run = one plan (LP + configuration + solves, float-stage/interruption faults in batch B); non-trivial = at least one OPTIMAL verdict whose out-parameters or accessor vectors were certificate-checked against the model; distinct = distinct plan hashes",
         "assumptions": COMMON_ASSUME,
     },
@@ -39,7 +39,7 @@ PROPS = {
         "assumptions": COMMON_ASSUME + ["ground truth limited to LPs the dense reference simplex handles (<= 10 rows, <= 10 columns)"],
     },
     "C04": {
-        "arms": [arm("config", 0, weight=3), arm("config", 1, weight=3), arm("config", 0, "asan0", weight=1), arm("hist", 1, weight=1)],
+        "arms": [arm("config", 0, weight=3), arm("config", 1, weight=3), arm("partial", 0, weight=2), arm("partial", 1, weight=1), arm("config", 0, "asan0", weight=1), arm("hist", 1, weight=1)],
         "rule": "one run = one LP driven by 3-6 interleaved clients in different configurations; non-trivial = at least two configurations reached a definitive status that was compared (with each other and with the reference solver); distinct = distinct plan hashes",
         "assumptions": COMMON_ASSUME,
     },
@@ -69,7 +69,7 @@ PROPS = {
         "assumptions": COMMON_ASSUME,
     },
     "C17": {
-        "arms": [arm("hist", 1, weight=3), arm("invalid", 0, weight=1), arm("solve", 1, weight=2), arm("config", 1, weight=1), arm("copy", 1, weight=2), arm("io", 1, weight=2), arm("reader", 1, weight=1), arm("lu", 1, weight=1), arm("cli", 1, weight=1), arm("resolve", 1, weight=2), arm("grow", 1, weight=1), arm("bases", 1, weight=1), arm("hist", 1, "asan0", weight=1)],
+        "arms": [arm("hist", 1, weight=3), arm("invalid", 0, weight=1), arm("solve", 1, weight=2), arm("config", 1, weight=1), arm("copy", 1, weight=2), arm("io", 1, weight=2), arm("reader", 1, weight=1), arm("lu", 1, weight=1), arm("cli", 1, weight=1), arm("resolve", 1, weight=2), arm("grow", 1, weight=1), arm("bases", 1, weight=1), arm("partial", 1, weight=1), arm("hist", 1, "asan0", weight=1)],
         "rule": "union of all profiles under ASan+UBSan (crash, hang and sanitizer reports are violations); plus twin runs: a sample of plans is executed in three fresh processes (asan / plain -O2 / asan with GMP on malloc; different fresh-memory fill pattern and environment size) whose transcripts - return codes, statuses, digests of every solution vector, bases, bytes of written files - must be identical; thorough adds valgrind memcheck on the plain binary; non-trivial = a run of >= 3 operations; distinct = distinct plan hashes",
         "assumptions": COMMON_ASSUME + ["reads of uninitialised memory are detected differentially (fill patterns) and by valgrind on a subset; MSan is unusable with uninstrumented libgmp"],
         "twin": True,
@@ -101,7 +101,10 @@ PROPS = {
         "assumptions": COMMON_ASSUME,
     },
     "C18": {
-        "arms": [arm("hist", 1, "asan0", weight=3, leakcheck=1), arm("reader", 1, "asan0", weight=3, leakcheck=1), arm("solve", 1, "asan0", weight=2, leakcheck=1), arm("invalid", 1, "asan0", weight=2, leakcheck=1), arm("io", 1, "asan0", weight=2, leakcheck=1), arm("cli", 0, "asan0", weight=1, leakcheck=1)],
+        # GMP numbers are only visible to LeakSanitizer in the asan0 flavour (slow); everything else the library allocates - bases, name
+        # tables, raw LP data, factor work, strings - leaks just as visibly in the fast asan flavour, which therefore gets most of the runs
+        "arms": [arm("hist", 1, "asan0", weight=2, leakcheck=1), arm("reader", 1, "asan0", weight=2, leakcheck=1), arm("solve", 1, "asan0", weight=1, leakcheck=1), arm("invalid", 1, "asan0", weight=1, leakcheck=1), arm("io", 1, "asan0", weight=1, leakcheck=1), arm("cli", 0, "asan0", weight=1, leakcheck=1),
+                 arm("solve", 1, weight=6, leakcheck=1), arm("hist", 1, weight=3, leakcheck=1), arm("reader", 1, weight=3, leakcheck=1), arm("io", 1, weight=2, leakcheck=1), arm("invalid", 1, weight=2, leakcheck=1), arm("bases", 1, weight=2, leakcheck=1), arm("resolve", 1, weight=1, leakcheck=1), arm("copy", 1, weight=1, leakcheck=1)],
         "rule": "union of profiles in the EG_LPNUM_MEMSLAB=0 flavour (GMP numbers come from malloc); after all documented frees and QSexactClear LeakSanitizer's recoverable check runs; violation class = innermost three library frames of the allocation stack; non-trivial = a run of >= 3 operations; distinct = distinct plan hashes",
         "assumptions": COMMON_ASSUME + ["allocation failure is not injected (the library terminates on it by design)"],
         "slow_unwind": True,
